@@ -110,3 +110,80 @@ def _c12_lift_split(case, observed):
         if start_i > 0 or end_i < len(node.kids):
             return True
     return False
+
+
+def _c18_ctx(case):
+    from . import adapters
+    from .ref import tokens as tk
+
+    c = adapters.ctx(case["schema"])
+    T = tk.doc_tokens(c.model, case["doc"])
+    o = case["isolating_node_at"]
+    depth = 0
+    cl = None
+    for i in range(o, len(T)):
+        if T[i][0] == "o":
+            depth += 1
+        elif T[i][0] == "c":
+            depth -= 1
+            if depth == 0:
+                cl = i
+                break
+    return c, T, o, cl
+
+
+@predicate("fitter-closes-isolating-node-for-foreign-content")
+def _c18_fitter_split(case, observed):
+    """C18: plain fitting (Transform.replace & co) of content one of whose top-level node types cannot be a
+    child of any node open between the isolating node and the insertion point: the fitter closes (splits) the
+    isolating node to place it outside, as upstream's Fitter does (it only guards isolating nodes of the slice)."""
+    op = case.get("op") or {}
+    if op.get("op") not in ("replace", "replace_with", "insert", "replace_range", "replace_range_with"):
+        return False
+    from .ref import cexpr
+    from .ref import slices as rsl
+
+    c, T, o, cl = _c18_ctx(case)
+    frm = op.get("from", op.get("pos"))
+    stack = [t[1] for t in rsl.open_stack(T, frm)]
+    iso_type = T[o][1]
+    if iso_type not in stack:
+        return False
+    frontier = stack[len(stack) - 1 - stack[::-1].index(iso_type):]
+    if "slice" in op:
+        content = op["slice"].get("content") or []
+        tops = []
+        cur = content
+        for _ in range(op["slice"].get("openStart", 0) + 1):
+            tops.extend(n["type"] for n in cur)
+            if not cur:
+                break
+            cur = cur[0].get("content") or []
+    else:
+        tops = [op["node"]["type"]]
+    for s in tops:
+        if all(s not in cexpr.symbols(c.model.types[f].regex) for f in frontier):
+            return True
+    # or: the slice is open at its start through a node of the isolating node's own type, i.e. it carries that
+    # node's closing token; fitted onto the document's node it closes it and the rest needs a new one
+    if "slice" in op:
+        cur = op["slice"].get("content") or []
+        for _ in range(op["slice"].get("openStart", 0)):
+            if not cur:
+                break
+            if cur[0]["type"] == iso_type:
+                return True
+            cur = cur[0].get("content") or []
+    return False
+
+
+@predicate("insert-point-leaves-isolating-node")
+def _c18_insert_point(case, observed):
+    """C18: replace_range_with(pos, pos, block node) at the very start or end of an isolating node's content:
+    insert_point searches outwards for a place where the node fits and does not stop at isolating nodes."""
+    op = case.get("op") or {}
+    if op.get("op") != "replace_range_with" or op.get("from") != op.get("to"):
+        return False
+    c, T, o, cl = _c18_ctx(case)
+    p = op["from"]
+    return all(t[0] == "o" for t in T[o + 1: p]) or all(t[0] == "c" for t in T[p: cl])
